@@ -329,7 +329,7 @@ def _build_pdarray(p, st):
             a[i] = _build(d, st)
         return pd.arrays.NumpyExtensionArray(a)
     if dt in ("str", "string"):
-        return pd.array(_na_list(vals, None), dtype=dt)
+        return pd.array([None if v is None else _INTERN.setdefault(("s", v), v) for v in vals], dtype=dt)
     if dt.startswith("datetime64") or dt.startswith("timedelta64"):
         nat = np.iinfo(np.int64).min
         unit = p.get("unit", "ns")
@@ -431,9 +431,11 @@ def _build(d, st):
     if tag == "complex":
         return complex(_fl(d[1]), _fl(d[2]))
     if tag == "str":
-        return d[1]
+        # equal strings / bytes inside one built value are one object: object sharing
+        # (visible to pickle's memo) is then a function of the description only
+        return _INTERN.setdefault(("s", d[1]), d[1])
     if tag == "bytes":
-        return bytes.fromhex(d[1])
+        return _INTERN.setdefault(("b", d[1]), bytes.fromhex(d[1]))
     if tag == "list":
         out = []
         st.append(out)
@@ -513,8 +515,15 @@ def _ordered_set(typ, items, st):
     return frozenset([_build(x, st) for x in items])
 
 
+_INTERN = {}
+
+
 def build(desc):
-    return _build(desc, [])
+    _INTERN.clear()
+    try:
+        return _build(desc, [])
+    finally:
+        _INTERN.clear()
 
 
 # --------------------------------------------------------------------------
@@ -957,7 +966,7 @@ def feature_of(v):
 def children(v):
     """Immediate components of builtin containers / dataclasses / partials (for blame)."""
     t = type(v)
-    if t in (list, tuple, set, frozenset):
+    if t in (list, tuple):
         return list(v)
     if t is dict:
         out = []
